@@ -23,4 +23,6 @@ def run(prog, tier):
     CR.header_reader_rule(prog, res, 'width-sign/header-read', int_scale_ok=True)
     CR.frame_writer_rule(prog, res, 'width-sign/frame-write')
     CR.frame_reader_rule(prog, res, 'width-sign/frame-read')
+    CR.numeric_payload_rule(prog, res)
+    CR.primitive_read_rule(prog, res)
     return res
